@@ -160,10 +160,12 @@ type c05VecCase struct {
 	K       scalarSpec   `json:"k"`     // multiplier for Commit(k*a)
 	Upd     int          `json:"upd"`   // updated coefficient
 	Delta   scalarSpec   `json:"delta"` // update amount
+	Noise   uint64       `json:"noise,omitempty"`
 }
 
 func genC05Vec(t *rapid.T) c05VecCase {
-	c := c05VecCase{Mode: rapid.SampledFrom([]string{"sparse", "sparse", "dense", "recipes", "recipes"}).Draw(t, "mode"), Seed: rapid.Uint64().Draw(t, "seed")}
+	c := c05VecCase{Mode: rapid.SampledFrom([]string{"sparse", "sparse", "dense", "recipes", "recipes"}).Draw(t, "mode"), Seed: rapid.Uint64().Draw(t, "seed"),
+		Noise: noiseSeedFrom(rapid.Uint64().Draw(t, "noise"))}
 	c.Len = rapid.SampledFrom([]int{0, 1, 2, 3, 4, 5, 6, 7, 8, 16, 17, 64, 127, 128, 129, 200, 255, 256, 256, 256}).Draw(t, "len")
 	if rapid.IntRange(0, 3).Draw(t, "len_any") == 0 {
 		c.Len = rapid.IntRange(0, 256).Draw(t, "len_u")
@@ -222,6 +224,7 @@ func evalC05Vec(c c05VecCase, rec *hx.Rec) error {
 	for _, s := range c.Scalars {
 		rec.Label("vec/scalar=" + s.label())
 	}
+	runNoise(c.Noise, 3, true)
 	a := c.vector()
 	pa, ea, err := implCommit(a)
 	if err != nil {
